@@ -13,6 +13,7 @@ FOCUS_ACTIONS = {
              "CreateTeam", "UpdateTeam", "DeleteTeam", "CreateRole"],
     "auth_large": ["UpdateRole", "DeleteRole", "CreateMPerm", "AddTokenToTeam"],
     "failover": ["AddNode", "UpdateNodeState", "PromoteWriter", "DemoteWriter", "RemoveNode"],
+    "chain": ["CreateOrg", "CreateTeam", "CreateRole", "CreateMPerm", "DeleteMPerm", "DeleteRole", "DeleteTeam", "DeleteOrg"],
     "dup": ["CreateOrg", "CreateTeam", "CreateToken", "AddTokenToTeam", "DeleteOrg", "DeleteTeam", "DeleteToken"],
     "deep": ["CreateOrg", "DeleteOrg", "CreateTeam", "DeleteTeam", "CreateRole", "DeleteRole", "CreateMPerm", "DeleteMPerm",
              "CreateToken", "UpdateToken", "DeleteToken", "AddTokenToTeam", "RemoveTokenFromTeam"],
